@@ -591,17 +591,38 @@ class Resolver:
             cache[key] = out
         return cache[key]
 
-    def _module_literal(self, name):
-        """A module-level constant bound once to a literal (number, string, tuple/list of such)."""
+    def _module_literal(self, name, path=None, _hops=0):
+        """A module-level constant bound once to a literal (number, string, tuple/list of such, constant
+        table), in this module or imported by name from another module of the repository."""
         cache = getattr(self.m, "_module_literals", None)
         if cache is None:
             cache = self.m._module_literals = {}
-        key = (self.fn.path, name)
+        path = path or self.fn.path
+        key = (path, name)
         if key in cache:
             return cache[key]
         out = None
-        tree = self.m.trees.get(self.fn.path, (None, None))[0]
-        if tree is not None and not self.fn.path.endswith("posc.py"):
+        tree = self.m.trees.get(path, (None, None))[0]
+        if tree is not None and not path.endswith("posc.py") and _hops < 3:
+            imps = [(st, al) for st in tree.body if isinstance(st, ast.ImportFrom) for al in st.names if (al.asname or al.name) == name]
+            if len(imps) == 1 and not any(isinstance(x, ast.Name) and isinstance(x.ctx, ast.Store) and x.id == name for st in tree.body if not isinstance(st, (ast.FunctionDef, ast.ClassDef)) for x in ast.walk(st)):
+                st, al = imps[0]
+                import os
+                base = os.path.dirname(path)
+                for _ in range(max(st.level - 1, 0)):
+                    base = os.path.dirname(base)
+                if st.level >= 1 and st.module:
+                    cand = os.path.join(base, *st.module.split(".")) + ".py"
+                    if cand in self.m.trees:
+                        out = self._module_literal(al.name, cand, _hops + 1)
+                elif st.level == 0 and st.module:
+                    tail = os.path.join(*st.module.split(".")) + ".py"
+                    cands = [p_ for p_ in self.m.trees if p_.endswith(os.sep + tail) or p_ == tail]
+                    if len(cands) == 1:
+                        out = self._module_literal(al.name, cands[0], _hops + 1)
+                cache[key] = out
+                return out
+        if tree is not None and not path.endswith("posc.py"):
             defs = [st for st in tree.body if isinstance(st, (ast.Assign, ast.AnnAssign)) and any(isinstance(t, ast.Name) and t.id == name for t in (st.targets if isinstance(st, ast.Assign) else [st.target]))]
             if len(defs) == 1 and defs[0].value is not None:
                 v = defs[0].value
@@ -611,6 +632,11 @@ class Resolver:
                         return ("const", e.value)
                     if isinstance(e, (ast.Tuple, ast.List)) and all(isinstance(x, ast.Constant) for x in e.elts):
                         return ("tuple" if isinstance(e, ast.Tuple) else "list", tuple(("const", x.value) for x in e.elts))
+                    if isinstance(e, ast.Lambda):
+                        from .dispatch import lambda_op
+                        lo = lambda_op(e)
+                        if lo is not None:
+                            return ("opfn" if not lo[1] else "opfn-swapped", lo[0].__name__)  # lambda a, b: a OP b
                     if isinstance(e, ast.Name):
                         imp = self._module_import(e.id)
                         if imp is not None and imp[0] in ("operator", "_operator") and imp[1] in OPERATOR_MODULE:
